@@ -21,7 +21,8 @@ EXPLANATION = (
     " (R10) in every update form the bound test, the stored element and the equilibration entries use the same index (row/column of that entry for matrices); tuple forms without stores delegate unchanged; (R1, sdp) is_chordal_decomposed is true exactly when decomposition data exists."
     " R2 also: every returning path of the matrix form passes through the sparsity comparison; R4 also: the cached norms are initialised and recomputed with the same (infinity) norm."
     " (R11) index_to_coord, which gives the index forms the row and column of a stored entry, inverts colptr (C16.R7 re-run)."
-    ' R1 also: the gate answers Ok only on a path that found is_presolved() (and, in sdp builds, is_chordal_decomposed()) false - it does not consult the mutable settings.')
+    ' R1 also: the gate answers Ok only on a path that found is_presolved() (and, in sdp builds, is_chordal_decomposed()) false - it does not consult the mutable settings.'
+    ' R10 also: every (index, value) pair of an index form is written (no pass of the loop moves on without a store).')
 ASSUMPTIONS = ['rustc MIR construction and trait resolution are correct', 'algebra primitives have their documented meaning']
 
 MUTATORS = {'copy_from_slice', 'lrscale', 'lscale', 'rscale', 'scale', 'hadamard', 'copy_from', 'fill', 'set', 'index_mut'}
@@ -419,6 +420,16 @@ def element_store_indices(rep, F, tag):
                         R.check(jl == ['index_to_coord(arg2, %s).0' % I] and jr == ['index_to_coord(arg2, %s).1' % I], 'scale-same-index|%s|%s%s' % (f.name, st[:30], tag),
                                 '%s for %s stores nzval[%s] scaled by lscale%s, rscale%s: expected the row / column of that entry' % (f.name, st, I, jl, jr), f.loc())
             has_store = any(e[0] == 'store' and 'arg2' in str(e[1]) for val, ret, ev, tr in leaves for e in ev)
+            if has_store:
+                # every pair handed in is written: a pass of the loop that goes on to the next pair without a store (say, for a zero value) leaves the
+                # old equilibrated entry in place although the update was accepted
+                for val, ret, ev, tr in leaves:
+                    got_pair = any(k.startswith('discr(next(') and '@Some' not in k and v == 1 for k, v in val.items())
+                    if ret[0] == 'cut' and got_pair:
+                        wrote = any(e[0] == 'store' and 'arg2' in str(e[1]) for e in ev)
+                        R.check(wrote, 'every-pair-written|%s|%s%s' % (f.name, st[:30], tag),
+                                '%s for %s moves on to the next (index, value) pair without writing this one (path %s): an entry can then not be set to that value' % (
+                                    f.name, st, {k[:50]: v for k, v in val.items() if not k.startswith('discr(next(')}), f.loc())
             if st.startswith('(') and not has_store:
                 rets = [str(ret[1]) for val, ret, ev, tr in leaves if ret[0] == 's']
                 want = '%s(zip(iter(self.0), iter(self.1)), arg2, arg3, arg4%s)' % (f.name, '' if vec else ', arg5')
